@@ -837,6 +837,10 @@ func kindModel(r *hx.Rand, o *obs) {
 		}
 	}
 	req := &openfgav1.WriteAuthorizationModelRequest{StoreId: st, TypeDefinitions: tds, SchemaVersion: hx.Pick(r, []string{"1.1", "1.1", "1.1", "1.1", "1.1", "1.1", "1.1", "1.1", "1.0", "1.2", "", "2"}), Conditions: conds}
+	if f := os.Getenv("C19_DUMP"); f != "" {
+		b, _ := proto.Marshal(req)
+		_ = os.WriteFile(f, b, 0o644)
+	}
 	var mid string
 	o.do("WriteAuthorizationModel", func(ctx context.Context) error {
 		resp, err := srv.WriteAuthorizationModel(ctx, req)
